@@ -946,6 +946,14 @@ class Ev:
             sup = all(any(same(x, y) for y in a.items) for x in b.items)
             return {ast.LtE: sub, ast.GtE: sup, ast.Lt: sub and not sup, ast.Gt: sup and not sub}[type(op)]
         # order
+        dunder = {ast.Lt: ("__lt__", "__gt__"), ast.Gt: ("__gt__", "__lt__"), ast.LtE: ("__le__", "__ge__"), ast.GtE: ("__ge__", "__le__")}.get(type(op))
+        if dunder is not None:
+            # an object of a class of the repository that defines the comparison (reflected when only the right one does)
+            for x, y, name in ((a, b, dunder[0]), (b, a, dunder[1])):
+                if isinstance(x, Obj) and x.cls is not None and not isinstance(x, Lenient):
+                    owner, fn = self.repo.find_method(x.cls, name)
+                    if fn is not None:
+                        return self.truth(self.call_fn(FuncV(fn, self_val=x, cls=owner, mod=owner.mod), [y], {}, node), node)
         if isinstance(a, (int, float)) and not isinstance(a, bool) and isinstance(b, (int, float)) and not isinstance(b, bool):
             return {ast.Lt: a < b, ast.LtE: a <= b, ast.Gt: a > b, ast.GtE: a >= b}[type(op)]
         if isinstance(a, Sym) and a.positive and isinstance(b, (int, float)):
